@@ -401,6 +401,9 @@ func (s *Synth) Instr(st wdc.Arch) bool {
 				s.put(dat(1), Draw8(s.D, "dat1"))
 			}
 		}
+		if !bank0 && ea < 1<<24 && cls == "overflow24" {
+			cls = "bottom" // no index to carry out: the address simply is in bank 0
+		}
 		if !bank0 && ea >= 1<<24 {
 			cls = "overflow24"
 		} else if !bank0 && !w8 && ea&0xffffff == 0xffffff {
